@@ -1,8 +1,27 @@
 (* Props/C10.v — the audited surface for property C10 (label-based access addresses exactly the labelled
-   periods).  Statements only; every proof is `exact <lemma>`; Print Assumptions under each. *)
+   periods).  Statements only; every proof is `exact <lemma>`; Print Assumptions under each.
+
+   How to read it.  The generic theorems (C10_label_get_exact ... C10_eval_slice_agrees) are stated for an arbitrary lookup `lc`
+   meeting `locate_spec` (for ALL labels).  The theorems C10_own_* at the end are the END-TO-END statements about the container's
+   own accessors get_item g st / set_item g st, pointwise in the labels the key makes the container look up: they are what covers
+   the property for list / tuple / range / NumPy-array spans with no hypothesis about the lookup at all (for NumPy-array spans:
+   every non-tuple label, and tuple labels unless the span has length 1 or 2 — exactly the class of the kept finding), and for
+   pandas spans relative to get_loc (an oracle, or the index models of LocateIndex.v which the correspondence check compares with
+   pandas on every recorded answer — a sampled tie, not a proof about pandas).
+   Documented exclusions (the property's text fixes no behaviour there; the model mirrors the code, K compares, the direct oracle
+   is silent): spans with REPEATED labels — list / tuple / range spans answer the first occurrence (C10_locate_list_index needs no
+   NoDup; C10_slice_get_closed_stop_any_span), a NumPy-array span answers KeyError for a repeated label although it is present
+   (C10_locate_fallback_not_unique), an open stop resolves to the first occurrence of the last label
+   (C10_dup_span_open_slice_refuted); a label None (Python reads it as an open slice bound); negative / zero steps
+   (C10_negative_step_get, C10_zero_step_rejected).
+   Only K / oracle, no theorem: the element type is abstract and the model does not cast — that NumPy's cast of a written value
+   (2.5 into an int series, 'abc' into <U2) is read back identically through every path is checked by the direct oracle on typed
+   series; pandas itself; BaseModel / linker / mixin subclasses reach the same accessors (checked by K on BaseModel and by the
+   oracle on the others).
+   Theorems that only unfold a definition are marked [unfolding] and cover no clause by themselves. *)
 From Coq Require Import ZArith List Bool String Sorted.
 Import ListNotations.
-Require Import PyBase Generated Locate LocateFacts LocateFacts2 LocateExamples LocateIndex LocateIndexFacts.
+Require Import PyBase Generated Locate LocateFacts LocateFacts2 LocateOwn LocateExamples LocateIndex LocateIndexFacts.
 Open Scope Z_scope.
 Open Scope list_scope.
 
@@ -42,7 +61,8 @@ Theorem C10_locate_fallback_not_unique (g : list label -> label -> outcome loc) 
 Proof. exact (locate_arr_not_unique g ls x). Qed.
 Print Assumptions C10_locate_fallback_not_unique.
 
-(* pandas: get_loc is an oracle; if its answers (exceptions mapped to KeyError) meet the spec, so does the container's lookup *)
+(* [unfolding] pandas: get_loc is an oracle; if its answers (exceptions mapped to KeyError) meet the spec, so does the container's
+   lookup — the conclusion is the hypothesis carried through `locate`; it says that the container adds nothing to pandas' answer *)
 Theorem C10_locate_pandas (g : list label -> label -> outcome loc) (ls : list label) :
   locate_spec ls (fun x => to_KeyError (g ls x)) -> locate_spec ls (locate g (SPandas ls)).
 Proof. exact (locate_pandas_spec g ls). Qed.
@@ -323,13 +343,13 @@ Theorem C10_unknown_name_before_lookup (V : Type) (lc1 lc2 : label -> outcome lo
 Proof. exact (@unknown_name_before_lookup V lc1 lc2 st name k w). Qed.
 Print Assumptions C10_unknown_name_before_lookup.
 
-(* ---------- pandas PeriodIndex / DatetimeIndex WITHOUT an oracle hypothesis: a model of Index.get_loc for regular indexes
+(* ---------- pandas PeriodIndex / DatetimeIndex relative to a hand-written MODEL of Index.get_loc for regular indexes
    (period_range: consecutive integer ordinals of one frequency; date_range with a fixed-length frequency: nanoseconds with a
-   constant step).  The model finds a label by its integer code; it is tied to pandas by the correspondence check (every recorded
-   get_loc / `in` answer for a label pandas does not parse from text).  With it `locate_spec` — the hypothesis of every theorem
-   above — is PROVED for these spans (every start, every non-zero step, every length, both kinds), and the labels are
-   duplicate-free, so C10_label_get_exact / C10_slice_positions / C10_write_then_read_any_path / C10_missing_* apply
-   to them unconditionally. ---------- *)
+   constant step).  The model finds a label by its integer code.  What is PROVED is that the model meets `locate_spec` (every start,
+   every non-zero step, every length, both kinds) and that its labels are duplicate-free — facts about the model.  That pandas
+   behaves like the model is NOT proved: the correspondence check compares the model with every recorded get_loc / `in` answer
+   (pd_model_ok; labels pandas parses from text excluded) — a sampled tie.  `recognise`, which K uses to decide that a recorded
+   index is regular, accepts positive steps only (pandas date / period ranges are increasing); the theorems hold for s <> 0. ---------- *)
 Theorem C10_regular_index_get_loc (k : ikind) (a s : Z) (n : nat) :
   s <> 0 ->
   forall x, match pos x (reg_labels k a s n) with
@@ -385,8 +405,8 @@ Theorem C10_zero_step_rejected (V : Type) (lc : label -> outcome loc) (st : csta
 Proof. exact (@zero_step_rejected V lc st name sr a b pa pb w). Qed.
 Print Assumptions C10_zero_step_rejected.
 
-(* any other pandas index (pd.Index of ints / strs, an irregular DatetimeIndex): the plain model of get_loc (position of the
-   label; compared with every recorded pandas answer on duplicate-free indexes) meets locate_spec for EVERY list of labels *)
+(* [restatement] any other pandas index (pd.Index of ints / strs, an irregular DatetimeIndex): the plain model of get_loc IS
+   index_from (first position), so this is C10_locate_list_index again; its content is the sampled tie to pandas in K *)
 Theorem C10_plain_index_get_loc (ls : list label) : locate_spec ls (plain_get_loc ls).
 Proof. exact (plain_get_loc_spec ls). Qed.
 Print Assumptions C10_plain_index_get_loc.
@@ -411,3 +431,116 @@ Theorem C10_slice_write_then_label_reads (V : Type) (lc : label -> outcome loc) 
                forall old, nth_error (s_data sr) p = Some old -> get_item_with lc st' name (KLabel x) = Ret (RScalar old)).
 Proof. exact (@slice_write_then_label_reads V lc st name sr a b s pa pb v). Qed.
 Print Assumptions C10_slice_write_then_label_reads.
+
+(* ================= END TO END: the container's own accessors, pointwise in the labels looked up =================
+   get_item g st / set_item g st are the accessors with the container's own lookup locate g (c_span st).  Hypotheses: span_ok
+   (range step <> 0; NumPy-array span duplicate-free; pandas: get_loc meets the spec) and own_label_ok for the labels of the key
+   only — for a NumPy-array span: any label that is not a tuple, and a tuple label that is no element unless the span has length
+   1 or 2 (the kept finding's class, C10_arr_tuple_label_aliases_refuted); no condition for the other span types. *)
+(* an access uses the lookup only for the labels of its key (and the span's ends for open slices) *)
+Theorem C10_get_item_depends_on_key_labels (V : Type) (lc lc' : label -> outcome loc) (st : cstate V) (name : string) (k : key) :
+  (forall x, In x (key_labels (c_span st) k) -> lc x = lc' x) ->
+  get_item_with lc st name k = get_item_with lc' st name k.
+Proof. exact (@get_item_with_ext V lc lc' st name k). Qed.
+Print Assumptions C10_get_item_depends_on_key_labels.
+Theorem C10_set_item_depends_on_key_labels (V : Type) (lc lc' : label -> outcome loc) (st : cstate V) (name : string) (k : key) (w : operand V) :
+  (forall x, In x (key_labels (c_span st) k) -> lc x = lc' x) ->
+  set_item_with lc st name k w = set_item_with lc' st name k w.
+Proof. exact (@set_item_with_ext V lc lc' st name k w). Qed.
+Print Assumptions C10_set_item_depends_on_key_labels.
+
+(* the own lookup answers as the spec demands for every admissible label, on every span type *)
+Theorem C10_locate_own_spec (g : list label -> label -> outcome loc) (sp : span) (x : label) :
+  span_ok g sp -> own_label_ok sp x ->
+  match pos x (span_labels sp) with
+  | Some p => exists fl, locate g sp x = Ret (LPos (Z.of_nat p) fl)
+  | None => locate g sp x = Raise KeyError
+  end.
+Proof. exact (locate_own_spec g sp x). Qed.
+Print Assumptions C10_locate_own_spec.
+
+Theorem C10_own_label_get_exact (g : list label -> label -> outcome loc) (V : Type) (st : cstate V) (name : string) (sr : series V) (x : label) (p : nat) :
+  span_ok g (c_span st) -> lookup name (c_vars st) = Some sr ->
+  List.length (s_data sr) = List.length (span_labels (c_span st)) ->
+  own_label_ok (c_span st) x -> pos x (span_labels (c_span st)) = Some p ->
+  exists v, nth_error (s_data sr) p = Some v /\ get_item g st name (KLabel x) = Ret (RScalar v).
+Proof. exact (fun H1 H2 H3 => @own_label_get_exact g V st name sr H1 H2 H3 x p). Qed.
+Print Assumptions C10_own_label_get_exact.
+
+Theorem C10_own_label_set_exact (g : list label -> label -> outcome loc) (V : Type) (st : cstate V) (name : string) (sr : series V) (x : label) (p : nat) (v : V) :
+  span_ok g (c_span st) -> lookup name (c_vars st) = Some sr ->
+  List.length (s_data sr) = List.length (span_labels (c_span st)) ->
+  own_label_ok (c_span st) x -> pos x (span_labels (c_span st)) = Some p ->
+  set_item g st name (KLabel x) (OScalar v) = (set_data st name sr (upd p v (s_data sr)), Ret tt).
+Proof. exact (fun H1 H2 H3 => @own_label_set_exact g V st name sr H1 H2 H3 x p v). Qed.
+Print Assumptions C10_own_label_set_exact.
+
+(* a label that is not in the span: KeyError, nothing read, nothing written — never another period *)
+Theorem C10_own_missing_label (g : list label -> label -> outcome loc) (V : Type) (st : cstate V) (name : string) (sr : series V) (x : label) (w : operand V) :
+  span_ok g (c_span st) -> lookup name (c_vars st) = Some sr ->
+  own_label_ok (c_span st) x -> pos x (span_labels (c_span st)) = None ->
+  get_item g st name (KLabel x) = Raise KeyError /\ set_item g st name (KLabel x) w = (st, Raise KeyError).
+Proof. exact (fun H1 H2 => @own_missing_label g V st name sr H1 H2 x w). Qed.
+Print Assumptions C10_own_missing_label.
+
+Theorem C10_own_slice_get_exact (g : list label -> label -> outcome loc) (V : Type) (st : cstate V) (name : string) (sr : series V)
+        (a b : option label) (s : option Z) (pa pb : nat) :
+  span_ok g (c_span st) -> lookup name (c_vars st) = Some sr ->
+  List.length (s_data sr) = List.length (span_labels (c_span st)) ->
+  (forall x, In x (key_labels (c_span st) (KSlice a b s)) -> own_label_ok (c_span st) x) ->
+  NoDup (span_labels (c_span st)) ->
+  start_pos (span_labels (c_span st)) a = Some pa -> stop_pos (span_labels (c_span st)) b = Some pb -> 0 < step_of s ->
+  let L := py_slice_positions (List.length (s_data sr)) (Some (Z.of_nat pa)) (Some (Z.of_nat pb + 1)) (step_of s) in
+  get_item g st name (KSlice a b s) = Ret (RArr (gather (s_data sr) L))
+  /\ (forall q, In q L <-> exists i : nat, Z.of_nat q = Z.of_nat pa + Z.of_nat i * step_of s /\ (q <= pb)%nat)
+  /\ ((pb < pa)%nat -> L = []).
+Proof. exact (fun H1 H2 H3 => @own_slice_get_exact g V st name sr H1 H2 H3 a b s pa pb). Qed.
+Print Assumptions C10_own_slice_get_exact.
+
+Theorem C10_own_slice_set_exact (g : list label -> label -> outcome loc) (V : Type) (st : cstate V) (name : string) (sr : series V)
+        (a b : option label) (s : option Z) (pa pb : nat) (w : operand V) (d' : list V) :
+  span_ok g (c_span st) -> lookup name (c_vars st) = Some sr ->
+  List.length (s_data sr) = List.length (span_labels (c_span st)) ->
+  (forall x, In x (key_labels (c_span st) (KSlice a b s)) -> own_label_ok (c_span st) x) ->
+  NoDup (span_labels (c_span st)) ->
+  start_pos (span_labels (c_span st)) a = Some pa -> stop_pos (span_labels (c_span st)) b = Some pb -> 0 < step_of s ->
+  assign (s_data sr) (py_slice_positions (List.length (s_data sr)) (Some (Z.of_nat pa)) (Some (Z.of_nat pb + 1)) (step_of s)) w = Ret d' ->
+  set_item g st name (KSlice a b s) w = (set_data st name sr d', Ret tt).
+Proof. exact (fun H1 H2 H3 => @own_slice_set_exact g V st name sr H1 H2 H3 a b s pa pb w d'). Qed.
+Print Assumptions C10_own_slice_set_exact.
+
+Theorem C10_own_missing_bound (g : list label -> label -> outcome loc) (V : Type) (st : cstate V) (name : string) (sr : series V)
+        (a b : option label) (s : option Z) (w : operand V) :
+  span_ok g (c_span st) -> lookup name (c_vars st) = Some sr ->
+  (forall x, In x (key_labels (c_span st) (KSlice a b s)) -> own_label_ok (c_span st) x) ->
+  NoDup (span_labels (c_span st)) ->
+  bound_given_or_nonempty st a -> bound_given_or_nonempty st b ->
+  (exists x, a = Some x /\ pos x (span_labels (c_span st)) = None)
+  \/ (start_pos (span_labels (c_span st)) a <> None /\ exists y, b = Some y /\ pos y (span_labels (c_span st)) = None) ->
+  get_item g st name (KSlice a b s) = Raise KeyError /\ set_item g st name (KSlice a b s) w = (st, Raise KeyError).
+Proof. exact (fun H1 H2 => @own_missing_bound g V st name sr H1 H2 a b s w). Qed.
+Print Assumptions C10_own_missing_bound.
+
+(* the refined guard for NumPy-array spans: a tuple label that is no element, on a span whose length is not 1 or 2, is simply absent *)
+Theorem C10_locate_arr_spec_wide (g : list label -> label -> outcome loc) (ls : list label) (x : label) :
+  NoDup ls -> arr_label_ok ls x ->
+  match pos x ls with
+  | Some p => locate g (SArr ls) x = Ret (LPos (Z.of_nat p) true)
+  | None => locate g (SArr ls) x = Raise KeyError
+  end.
+Proof. exact (locate_arr_spec_wide g ls x). Qed.
+Print Assumptions C10_locate_arr_spec_wide.
+
+(* repeated labels: with a GIVEN stop label the slice statement needs no NoDup (list / tuple spans look labels up by first occurrence) *)
+Theorem C10_slice_get_closed_stop_any_span (V : Type) (lc : label -> outcome loc) (st : cstate V) (name : string) (sr : series V)
+        (a : option label) (y : label) (s : option Z) (pa pb : nat) :
+  locate_spec (span_labels (c_span st)) lc ->
+  lookup name (c_vars st) = Some sr ->
+  List.length (s_data sr) = List.length (span_labels (c_span st)) ->
+  start_pos (span_labels (c_span st)) a = Some pa -> pos y (span_labels (c_span st)) = Some pb -> 0 < step_of s ->
+  let L := py_slice_positions (List.length (s_data sr)) (Some (Z.of_nat pa)) (Some (Z.of_nat pb + 1)) (step_of s) in
+  get_item_with lc st name (KSlice a (Some y) s) = Ret (RArr (gather (s_data sr) L))
+  /\ (forall q, In q L <-> exists i : nat, Z.of_nat q = Z.of_nat pa + Z.of_nat i * step_of s /\ (q <= pb)%nat)
+  /\ ((pb < pa)%nat -> L = []).
+Proof. exact (@slice_get_closed_stop_any_span V lc st name sr a y s pa pb). Qed.
+Print Assumptions C10_slice_get_closed_stop_any_span.
